@@ -38,7 +38,8 @@ etok = Function('etok', E, Tok)                # token of a text leaf
 
 KINDS = ['data.TexText', 'data.TexCmd', 'data.TexNamedEnv', 'data.BraceGroup', 'data.BracketGroup',
          'data.TexMathModeEnv', 'data.TexDisplayMathModeEnv', 'data.TexMathEnv', 'data.TexDisplayMathEnv',
-         'data.TexEnv', 'data.TexExpr', 'str']
+         'data.TexEnv', 'data.TexExpr', 'str', 'token']       # 'str' / 'token': raw plain string / raw Token in a content list
+NP = Function('noplain', ESeq, BoolSort())     # no element is a raw plain string (those are wrapped by _as_content)
 
 
 def kind_of(cls):
@@ -46,7 +47,7 @@ def kind_of(cls):
 
 
 def sl_facts(st, xs):
-    st.fact(Implies(Length(xs) == 0, And(SL(xs) == Empty(Str), TL(xs), TAg(xs), Not(BARE(xs)), AA(xs))))
+    st.fact(Implies(Length(xs) == 0, And(SL(xs) == Empty(Str), TL(xs), TAg(xs), Not(BARE(xs)), AA(xs), NP(xs))))
     st.fact(Implies(Length(xs) == 1, SL(xs) == ser(xs[0])))
 
 
@@ -60,11 +61,19 @@ def snoc_facts(st, old, x, new):
     st.fact(BARE(new) == Or(BARE(old), bare_x))
     st.fact(Length(new) == Length(old) + 1)
     st.fact(AA(new) == And(AA(old), is_arg_kind(x)))
+    st.fact(NP(new) == And(NP(old), kind(x) != kind_of('str')))
     sl_facts(st, old)
 
 
 def is_arg_kind(x):
     return Or(*[kind(x) == kind_of(c) for c in ('data.BraceGroup', 'data.BracketGroup', 'data.TexCmd')])
+
+
+@REG.specfun('noplain')
+def _noplain(ctx, xs):
+    xs = as_eseq(xs, ctx.st)
+    sl_facts(ctx.st, xs.z)
+    return VB(NP(xs.z))
 
 
 @REG.specfun('allargs')
@@ -190,7 +199,7 @@ def leaf_of_token(t, st):
     e = fresh('e_raw', E)
     if st is not None:
         st.fact(ser(e) == strz(t))
-        st.fact(kind(e) == kind_of('str'))
+        st.fact(kind(e) == kind_of('token' if t.ty == 'tok' else 'str'))
         st.fact(tight(e))
         for fn in LEAF_HOOKS:
             fn(st, e)
@@ -206,7 +215,14 @@ def as_eseq(v, st=None):
         return v
     if v.ty == 'list' and v.a['items'] and all(x.ty in ('E', 'tok', 'str') for x in v.a['items']) and \
             any(x.ty != 'E' for x in v.a['items']):
-        return retype(VList([x if x.ty == 'E' else leaf_of_token(x, st) for x in v.a['items']]), 'seq[E]')
+        items = [x if x.ty == 'E' else leaf_of_token(x, st) for x in v.a['items']]
+        r = retype(VList(items), 'seq[E]')
+        if st is not None:      # fold values of a list whose elements are all known
+            st.fact(NP(r.z) == And(*[kind(x.z) != kind_of('str') for x in items]))
+            st.fact(SL(r.z) == (Concat(*[ser(x.z) for x in items]) if len(items) > 1 else ser(items[0].z)))
+            st.fact(TL(r.z) == And(*[tight(x.z) for x in items]))
+            st.fact(Length(r.z) == len(items))
+        return r
     if v.ty == 'list' and all(x.ty == 'E' for x in v.a['items']):
         return retype(v, 'seq[E]')
     if v.ty == 'tuple' and not v.a['items']:
@@ -322,6 +338,13 @@ def e_attr_hook(eng, what, payload, st):
                 return [('val', st, VS(ename(v.z)))]
     if what == 'isinstance':
         v, t = payload
+        if v.ty == 'E' and t.ty == 'builtin' and t.a['name'] == 'str':
+            # TexText derives from str; raw strings/tokens stored in content lists are leaves of kind 'str'
+            return Or(kind(v.z) == kind_of('data.TexText'), kind(v.z) == kind_of('str'), kind(v.z) == kind_of('token'))
+        if v.ty == 'E' and t.ty == 'cls' and t.a['name'] == 'utils.Token':
+            return kind(v.z) == kind_of('token')
+        if v.ty == 'E' and t.ty == 'cls' and t.a['name'] == 'data.TexNode':
+            return BoolVal(False)
         if v.ty == 'E' and t.ty == 'cls':
             ks = [k for k, c in enumerate(KINDS) if c.startswith('data.') and t.a['name'] in eng.repo.mro(c)]
             return ops.disj([kind(v.z) == k for k in ks])
@@ -332,6 +355,19 @@ REG.attr_hooks.append(e_attr_hook)
 
 
 def appended_hook(eng, what, payload, st):
+    if what == 'seq-item':
+        xs, k, item = payload
+        if xs.ty == 'seq' and xs.a['elem'] == 'E':      # an element of a list of arguments is an argument
+            st.fact(Implies(And(AA(xs.z), 0 <= k, k < Length(xs.z)), is_arg_kind(xs.z[k])))
+            st.fact(Implies(And(NP(xs.z), 0 <= k, k < Length(xs.z)), kind(xs.z[k]) != kind_of('str')))
+        return None
+    if what == 'inserted':
+        old, at, x, new, el = payload
+        if el == 'E':
+            st.fact(AA(new) == And(AA(old), is_arg_kind(x)))
+            st.fact(Implies(at == Length(old), new == Concat(old, Unit(x))))
+            sl_facts(st, old)
+        return None
     if what == 'appended':
         old, x, new, el = payload
         if el == 'E':
